@@ -502,7 +502,7 @@ fn rule(kind: Kind) -> String {
         Kind::C07 => "Oracle: with a draining consumer every set / record reaches the consumer exactly once with the output computed for it, records inside a set in file order, sets in file order with one worker, worker saw each set once, end marker once. Non-trivial = >= 2 sets and (out-of-order completion, >= 2 workers, or recycling).",
         Kind::C08 => "Per base configuration the consumer behaviours (drain; stop after k results for every k in 0..=sets+1), a reader error at every set index and every init closure failing at each of its calls are enumerated. Oracle: shuttle reports no deadlock and no step-bound overrun, the call returns the expected result, and no callback runs after it returned. Non-trivial = consumer stopped with sets in flight, or a fault, or a consumer that never asks.",
         Kind::C15 => "Per base configuration: reader error at every set index x {draining, stop at error, stop after k}, reader_init failing, dataset_init failing at each call; real readers with an invalid record at a generated index and failing reader_init / record_data_init / rset_data_init. Oracle: error received exactly once, no set from behind it, earlier sets at most once (all of them + end marker when draining), init failures come back as Err, parse error equals the sequential one. Non-trivial = every execution with a fault.",
-        Kind::C16 => "Long inputs (up to hundreds of sets), slow and fast consumers. Oracle: dataset_init called at most queue_len + 1 times, every data set seen anywhere was created by it, at every fill: fills <= queue_len + min(received + 1, results finished by the workers) (the +1 only absorbs the lag of the consumer's own log), record_data_init called at most (queue_len + 1) x (largest set) times, record-set buffers bounded. Non-trivial = more sets than data sets (recycling happens).",
+        Kind::C16 => "Long inputs (up to hundreds of sets), slow and fast consumers. Oracle: dataset_init called at most queue_len + 1 times, every data set seen anywhere was created by it, at every fill: fills <= queue_len + min(received + 1, results finished by the workers) (the +1 only absorbs the lag of the consumer's own log), per-record output values alive at the same time at most (queue_len + 1) x (largest set) (creations minus drops counted by the output type; how often outputs are created is not bounded), record-set buffers bounded. Non-trivial = more sets than data sets (recycling happens).",
     };
     format!("{}{} Distinct = hash(configuration variant, scheduler, schedule seed).", common, own)
 }
